@@ -203,6 +203,7 @@ NOINL void md_full(Ctx const& c, std::string const& s, MD const& md, Block& blk,
         judge_writes(c, "write-through", blk.data(), blk.size(), mod, 16);
         blk.reset();
     }
+    blk.b.check("mdspan cells");
     // 5. observers
     crumb_op(c, s, "size()");
     expect_int("size()", (LL)md.size(), mod.size());
